@@ -366,3 +366,75 @@ func c13StartHazardRule(p *Prog) *RuleResult {
 	}
 	return r
 }
+
+// C13/R4 no look-behind escape test.
+//
+// In every grammar esbuild scans (JS strings, templates and regular expressions, CSS, JSON) a
+// backslash escapes the character after it — including another backslash. Whether a delimiter is
+// escaped can therefore only be decided by scanning forward and skipping the character after each
+// backslash; "the byte before the delimiter is a backslash" is wrong for `\\]`, `\\"`, `\\/`.
+// A secondary scanner that makes that mistake disagrees with the lexer about where a token or
+// character class ends and rejects (or mis-reads) valid input. Rule: no comparison of
+// `s[i-k]` (k a positive constant) with the backslash character anywhere in the module, except
+// the reviewed sites where the backslash is not an escape character.
+func c13NoLookBehindEscape(p *Prog) *RuleResult {
+	r := NewRule("C13/R4 no-look-behind-escape", "no scanner decides that a delimiter is escaped by testing whether the preceding byte is a backslash (a backslash can itself be escaped); escapes are skipped forwards")
+	exc := ExcTable{
+		"helpers.ParseGlobPattern #1": "Windows path separator in a glob pattern (`**\\`), not an escape character",
+	}
+	total := 0
+	for _, fn := range p.ModuleFuncs() {
+		k := 0
+		eachInstr(fn, func(b *ssa.BasicBlock, in ssa.Instruction) {
+			bo, ok := in.(*ssa.BinOp)
+			if !ok || (bo.Op != token.EQL && bo.Op != token.NEQ) {
+				return
+			}
+			for i, side := range []ssa.Value{bo.X, bo.Y} {
+				other := bo.Y
+				if i == 1 {
+					other = bo.X
+				}
+				if cv, ok := constInt(other); !ok || cv != '\\' {
+					continue
+				}
+				var idx ssa.Value
+				switch x := side.(type) {
+				case *ssa.UnOp:
+					if ia, ok := x.X.(*ssa.IndexAddr); ok && x.Op == token.MUL {
+						idx = ia.Index
+					}
+				case *ssa.Lookup:
+					idx = x.Index
+				case *ssa.Index:
+					idx = x.Index
+				case *ssa.Convert:
+					if lk, ok := x.X.(*ssa.Lookup); ok {
+						idx = lk.Index
+					}
+				}
+				if idx == nil {
+					continue
+				}
+				sub, ok := idx.(*ssa.BinOp)
+				if !ok || sub.Op != token.SUB {
+					continue
+				}
+				if cv, ok := constInt(sub.Y); !ok || cv <= 0 {
+					continue
+				}
+				k++
+				total++
+				r.Instances++
+				key := fmt.Sprintf("%s #%d", FuncName(fn), k)
+				if r.CheckExc(exc, key) {
+					continue
+				}
+				r.Fail(key, p.Pos(bo.Pos()), "a delimiter is treated as escaped because the byte before it is a backslash; a backslash can itself be escaped (`\\\\]`, `\\\\\"`), so this scanner disagrees with the lexer about where the token or character class ends")
+			}
+		})
+	}
+	r.StaleCheck(exc)
+	r.Note(fmt.Sprintf("%d look-behind comparisons with a backslash in the module", total))
+	return r
+}
